@@ -125,7 +125,8 @@ func (commander *Commander) exec(ctx context.Context, parameters Parameters, scr
 		if err != nil {
 			return nil, nil, errors.Wrap(err, "locking accounts for tx processing")
 		}
-		unlock(ctx)
+		// the accounts stay locked until the log is persisted: balances are read from the persisted state only
+		executionContext.deferUntilPersisted(func() { unlock(ctx) })
 
 		err = m.ResolveBalances(ctx, commander.store)
 		if err != nil {
